@@ -142,11 +142,11 @@ def evaluate_fee(case, ctr, rng):
     try:
         for b in real_blocks(case):
             ctx = fn.transaction_context(b)
-            mode = "ci" if block_in_multi_site_sub(case, b) else "valid"
             pc = exit_pc(b)
             ctr["fee_clause2_blocks"] += 1
             credited = ctx.max_fee_unknown or ctx.max_fee <= 272000
-            if credited and pc in admitted(case, "Fee", U64, mode):
+            # "constrains every accepting path through it": real paths, i.e. matched returns
+            if credited and pc in admitted(case, "Fee", U64, "valid"):
                 # is the block on an accepting walk at all? (a block on no accepting walk legitimately has bound 0)
                 viols.append({"kind": "bound-without-constraint", "key": b.entry_instr.line, "ckey": "fee-clause2",
                               "what": "block at line %d is credited with max_fee=%s (unknown=%s) although an accepting walk through it admits Fee = 2^64-1 (no Fee comparison constrains it)" % (
